@@ -46,6 +46,17 @@ Proof. intros c s age Hf Ht. rewrite (main_poll_exits c s age Hf).
 Theorem c15_finished_is_final : forall c s l t, finished s = Some t -> step c s l = s.
 Proof. exact finished_is_final. Qed.
 
+(* completeness has a ceiling: whatever arrives, the list never holds more spas than the consumer has taken datagrams from the receive queue - and
+   the real consumer takes one per 0.1 s poll, so a discovery that returns at the initial wait lists at most t_initial / 0.1 s spas (finding K14) *)
+Theorem c15_listed_never_exceeds_consumed : forall c ls, (List.length (spas (run c init ls)) <= consumes ls)%nat.
+Proof. exact listed_le_consumed. Qed.
+(* the shape of K14: three spas answer at once, one datagram has been taken when the initial wait is over - discover() returns with one spa
+   listed and the two other replies still queued *)
+Example c15_k14_shape :
+  let s := run (mkCfg None false 4000 10000) init [Arrive (mkR 1 1 1); Arrive (mkR 2 2 2); Arrive (mkR 3 3 3); Consume; MainPoll 4001] in
+  finished s = Some 4001 /\ List.length (spas s) = 1%nat /\ map r_id (queue s) = [2; 3].
+Proof. exact k14_shape. Qed.
+
 Example c15_nonvacuous :
   let c := mkCfg None false 4000 10000 in
   map r_id (spas (run c init [Arrive (mkR 1 1 1); Arrive (mkR 2 2 2); Arrive (mkR 1 1 1); Consume; Consume; MainPoll 300; Consume; MainPoll 4100])) = [1; 2] /\
